@@ -6,7 +6,8 @@ from vlib import sh_str, parse_sh, doc_str
 RULE = ("correspondence: merger on all 103041 ordered level-1 shape pairs and random related deep pairs; "
         "infer_text / infer_value on every document of nesting<=2,width<=2 and random deeper documents; from_sources "
         "on all sequences of length<=2 over a 60-document base and random sequences up to length 6 (with repetition "
-        "and permutation). oracle: Sem.mem(source, implementation's result) for every source; merger upper bound and "
+        "and permutation), plus the scale / rare-feature stream (wide objects / arrays / tuples up to 1025 members, chains of nesting "
+        "to depth 120, keys of 23..5000 bytes, shared prefixes, case-only differences, non-ASCII and boundary code points, 33..257 sources). oracle: Sem.mem(source, implementation's result) for every source; merger upper bound and "
         "monotonicity by witness documents validated by Sem.mem. non-trivial = a sequence with >=2 distinct sources or "
         "a merger pair with distinct operands whose result has depth>=1; distinct = distinct case line")
 ASSUMPTIONS = ["documents are rendered canonically (compact, keys need no escaping); the text level is covered by C04/C07",
@@ -28,6 +29,11 @@ def seqs(ctx):
     if ctx.tier != "quick":
         out += [[a, b, c] for a in base[:40] for b in base[:40] for c in base[:40]]
     return out
+
+def scale_seqs(ctx):
+    """the scale / rare-feature stream (vlib.scale_families): wide containers, long chains, long / odd keys,
+    many sources - thresholds that small random documents never reach"""
+    return [[doc_str(d) for d in s] for s in vlib.scale_seqs()]
 
 def run(ctx):
     l1 = vlib.level1()
@@ -71,6 +77,7 @@ def run(ctx):
     # ---- correspondence: single documents, both paths
     docs = [doc_str(d) for d in vlib.doc_pool_small()]
     docs += [doc_str(vlib.rand_doc(ctx.rng, 4)) for _ in range(2000 if ctx.tier == "quick" else 50000)]
+    docs += [doc_str(d) for d in vlib.scale_docs()]
     docs = list(dict.fromkeys(docs))
     ri, _ = ctx.correspond(["infer_text\t" + d for d in docs], "from_str on documents",
                            lambda l, r: r.startswith("OK") and r[3:4] in "ATO")
@@ -106,7 +113,9 @@ def run(ctx):
     bad = [(d, r) for (d, r), ok in zip(meta, vlib.model_bools(q)) if not ok]
     classify(ctx, [("infer_text\t" + d, d, r) for d, r in bad], "document is not a member of its own inferred shape")
     # ---- sequences
-    ss = seqs(ctx)
+    sc_ss = scale_seqs(ctx)
+    ss = sc_ss + seqs(ctx)
+    ctx.notes["scale_stream_sequences"] = len(sc_ss)
     lines = ["from_sources\t" + "\t".join(s) for s in ss]
     ri, _ = ctx.correspond(lines, "from_sources on sequences", lambda l, r: len(set(l.split("\t")[1:])) >= 2)
     q, meta = [], []
@@ -122,7 +131,7 @@ def run(ctx):
     classify(ctx, bad, "a source is not a member of the shape inferred from the sources")
     ctx.notes["source_membership_checks"] = len(q)
     # ---- monotonicity: h, h+[d] with witnesses of from_sources(h)
-    hs = [s for s in ss if len(s) >= 2][: (800 if ctx.tier == "quick" else 8000)]
+    hs = [s for s in sc_ss if len(s) >= 2] + [s for s in ss[len(sc_ss):] if len(s) >= 2][: (800 if ctx.tier == "quick" else 8000)]
     la = ["from_sources\t" + "\t".join(s[:-1]) for s in hs]
     lb = ["from_sources\t" + "\t".join(s) for s in hs]
     ra, rb = ctx.impl(la), ctx.impl(lb)
